@@ -493,7 +493,13 @@ class LambdaExpression(Expression):
                 expr,
             )
 
-        assert token.type_ == TokenType.LPAREN
+        if token.type_ != TokenType.LPAREN:
+            raise LiquidSyntaxError(
+                "expected an arrow function's parameter list, "
+                f"found {token.type_.name}",
+                token=token,
+            )
+
         params: list[Identifier] = []
 
         while stream.current().type_ != TokenType.RPAREN:
